@@ -65,4 +65,4 @@ var profIndex = register(&Profile{
 	Oracles: []Oracle{{Name: "index-canonical", After: oracleIndexCanonical}, {Name: "add-exact", After: oracleAdd}, {Name: "rm-exact", After: oracleRm}, {Name: "restore-exact", After: oracleRestore}},
 })
 
-var indexWeights = Weights{"write-new": 22, "modify": 8, "remove-file": 8, "rmdir": 6, "add": 24, "rm": 12, "commit": 8, "restore": 8, "restore-staged": 6, "reset": 8, "recreate": 3}
+var indexWeights = Weights{"dir-at-unstaged-file": 3, "file-at-unstaged-dir": 3, "write-new": 22, "modify": 8, "remove-file": 8, "rmdir": 6, "add": 24, "rm": 12, "commit": 8, "restore": 8, "restore-staged": 6, "reset": 8, "recreate": 3}
